@@ -277,7 +277,7 @@ func c18Upload(c *Ctx, pr *PropertyRun) {
 		case *ssa.Store:
 			// either the captured local cell, or the fileWriter.done field
 			if fa, ok := x.Addr.(*ssa.FieldAddr); ok {
-				if n := namedOf(fa.X.Type()); n == nil || n.Obj().Name() != "fileWriter" {
+				if n := namedOf(fa.X.Type()); n == nil || n != p.NamedType(pkgWebdav, "fileWriter") {
 					r.Ob(false)
 					r.Violation("chan-escapes|"+fnKey(create), p.instrPos(x), "the done channel is stored outside the fileWriter: other senders/receivers could break the exactly-one-value protocol", nil)
 				}
